@@ -25,7 +25,7 @@ Inductive re :=
 | Alt (a b : re)
 | Star (a : re)
 | Plus (a : re)
-| Rep (a : re) (mn : nat) (mx : option nat). (* a{mn,mx}; mx = None: unbounded *)
+| Rep (a : re) (mn : N) (mx : option N).     (* a{mn,mx}; mx = None: unbounded *)
 
 Definition perl_match (k : perl_kind) (c : N) : bool :=
   match k with
@@ -48,7 +48,7 @@ Definition cls_match (neg : bool) (items : list citem) (c : N) : bool :=
 Inductive token :=
 | TAtom (a : re)
 | TStar | TPlus | TQuest
-| TRep (mn : nat) (mx : option nat)
+| TRep (mn : N) (mx : option N)
 | TOpen | TClose | TBar
 | TBad | TUnsup.
 
@@ -244,7 +244,7 @@ Fixpoint tokenize (fuel : nat) (t : bytes) : list token :=
                                | None => false
                                end in
                 if too_big then [TBad]
-                else TRep (N.to_nat mn) (option_map N.to_nat mx) :: tokenize f (skip_lazy rest)
+                else TRep mn mx :: tokenize f (skip_lazy rest)
             end
           else if b =? 92 then                                (* \ *)
             match parse_escape t' with
@@ -267,13 +267,10 @@ Fixpoint tokenize (fuel : nat) (t : bytes) : list token :=
 Fixpoint rep_valid (r : re) (n : N) : bool :=
   match r with
   | Rep a mn mx =>
-      match mx with
-      | Some O => true
-      | _ =>
-          let m := N.of_nat (match mx with Some m => m | None => mn end) in
-          if n <? m then false
-          else rep_valid a (if 0 <? m then n / m else n)
-      end
+      let m := match mx with Some m => m | None => mn end in
+      if match mx with Some m => m =? 0 | None => false end then true
+      else if n <? m then false
+      else rep_valid a (if 0 <? m then n / m else n)
   | Cat a b | Alt a b => rep_valid a n && rep_valid b n
   | Star a | Plus a => rep_valid a n
   | _ => true
@@ -324,10 +321,10 @@ Fixpoint parse_tokens (toks : list token) (alts cur : list re)
       | TPlus => repeat Plus (fun _ => true) prod
       | TQuest => repeat (fun x => Alt x Eps) (fun _ => true) prod
       | TRep mn mx =>
-          let m := N.of_nat (match mx with Some m => m | None => mn end) in
+          let m := match mx with Some m => m | None => mn end in
           repeat (fun x => Rep x mn mx)
-                 (fun r => if (2 <=? N.of_nat mn) ||
-                              (match mx with Some m => 2 <=? N.of_nat m | None => false end)
+                 (fun r => if (2 <=? mn) ||
+                              (match mx with Some m => 2 <=? m | None => false end)
                            then rep_valid r max_repeat else true)
                  (prod * N.max 1 m)
       | TOpen =>
@@ -356,14 +353,10 @@ Fixpoint nullable (st en : bool) (r : re) : bool :=
   | Alt a b => nullable st en a || nullable st en b
   | Star _ => true
   | Plus a => nullable st en a
-  | Rep a mn mx =>
-      match mn with
-      | O => true
-      | S _ => nullable st en a
-      end
+  | Rep a mn mx => (mn =? 0) || nullable st en a
   end.
 
-Definition opt_pred (o : option nat) : option nat := option_map pred o.
+Definition opt_pred (o : option N) : option N := option_map N.pred o.
 
 (* partial derivatives of r by code point c; each result is a SEQUENCE (list) of regexps still
    to be matched.  st: c is the first code point of the text. *)
@@ -380,13 +373,11 @@ Fixpoint pd (st : bool) (c : N) (r : re) : list (list re) :=
   | Star a => map (fun k => k ++ [Star a]) (pd st c a)
   | Plus a => map (fun k => k ++ [Star a]) (pd st c a)
   | Rep a mn mx =>
-      match mx with
-      | Some O => []
-      | _ =>
-          (* if a can match empty here, the missing mandatory iterations can all be empty ones *)
-          let mn' := if nullable st false a then O else pred mn in
-          map (fun k => k ++ [Rep a mn' (opt_pred mx)]) (pd st c a)
-      end
+      if match mx with Some m => m =? 0 | None => false end then []
+      else
+        (* if a can match empty here, the missing mandatory iterations can all be empty ones *)
+        let mn' := if nullable st false a then 0 else N.pred mn in
+        map (fun k => k ++ [Rep a mn' (opt_pred mx)]) (pd st c a)
   end.
 
 Fixpoint pd_seq (st : bool) (c : N) (k : list re) : list (list re) :=
@@ -414,10 +405,10 @@ Fixpoint list_eqb {A} (eqb : A -> A -> bool) (a b : list A) : bool :=
   | x :: a', y :: b' => eqb x y && list_eqb eqb a' b'
   | _, _ => false
   end.
-Definition opt_nat_eqb (a b : option nat) : bool :=
+Definition opt_N_eqb (a b : option N) : bool :=
   match a, b with
   | None, None => true
-  | Some x, Some y => Nat.eqb x y
+  | Some x, Some y => x =? y
   | _, _ => false
   end.
 Fixpoint re_eqb (a b : re) : bool :=
@@ -427,7 +418,7 @@ Fixpoint re_eqb (a b : re) : bool :=
   | Cls n1 i1, Cls n2 i2 => Bool.eqb n1 n2 && list_eqb citem_eqb i1 i2
   | Cat a1 a2, Cat b1 b2 | Alt a1 a2, Alt b1 b2 => re_eqb a1 b1 && re_eqb a2 b2
   | Star a1, Star b1 | Plus a1, Plus b1 => re_eqb a1 b1
-  | Rep a1 m1 x1, Rep b1 m2 x2 => Nat.eqb m1 m2 && opt_nat_eqb x1 x2 && re_eqb a1 b1
+  | Rep a1 m1 x1, Rep b1 m2 x2 => (m1 =? m2) && opt_N_eqb x1 x2 && re_eqb a1 b1
   | _, _ => false
   end.
 
